@@ -206,6 +206,7 @@ func runC08(c c08Case) vh.Result {
 					mu.Lock()
 					garbage = append(garbage, ev.Err+": "+ev.Raw)
 					mu.Unlock()
+					pc.Discard(30 * time.Second) // keep the socket flowing so that blocked senders return
 					return
 				default:
 					return
@@ -309,11 +310,25 @@ func runC08(c c08Case) vh.Result {
 			}
 		}
 	}
-	waitFor(vh.Margin(8*time.Second), func() bool { return count() >= okSends })
+	// wait until everything arrived, something unparsable arrived, or nothing new has arrived for a while
+	lastN, lastChange := -1, time.Now()
+	waitFor(vh.Margin(8*time.Second), func() bool {
+		mu.Lock()
+		bad := len(garbage) > 0
+		mu.Unlock()
+		n := count()
+		if n != lastN {
+			lastN, lastChange = n, time.Now()
+		}
+		return bad || n >= okSends || time.Since(lastChange) > vh.Margin(700*time.Millisecond)
+	})
 	time.Sleep(vh.Margin(15 * time.Millisecond))
 	mu.Lock()
 	if len(garbage) > 0 {
 		res.Fail("wire-not-wellformed", "%s: the peer could not parse what was written (interleaved or truncated stanzas?): %s", desc, trunc(garbage[0], 300))
+		mu.Unlock()
+		go func() { _ = disconnect() }()
+		return res
 	}
 	for _, l := range results {
 		for _, s := range l {
